@@ -1,8 +1,9 @@
 SPECIFICATION Spec
 CONSTANTS
   SafeHandOver = TRUE
+  StartFiltered = TRUE
   Threads = {"t1", "t2", "t3"}
   Prog <- P_writer_readers
   Initial <- I3
-INVARIANTS LenOK QuiescentEpLive NoNilDeref
+INVARIANTS LenOK QuiescentEpLive NoNilDeref SearchLive
 CHECK_DEADLOCK FALSE
